@@ -2692,8 +2692,24 @@ func (m *Msg) hasAlt() bool {
 // References:
 //   - https://datatracker.ietf.org/doc/html/rfc2046#section-5.1.3
 func (m *Msg) hasMixed() bool {
-	return m.pgptype == 0 && (((len(m.parts) > 0 || len(m.embeds) > 0) && len(m.attachments) > 0) ||
+	return m.pgptype == 0 && (((m.hasBodyParts() || len(m.embeds) > 0) && len(m.attachments) > 0) ||
 		len(m.attachments) > 1)
+}
+
+// hasBodyParts returns true if the Msg has at least one part that is not the S/MIME signature part.
+//
+// The S/MIME signature part is appended to the parts of the Msg during signing. It is not part of the
+// signed entity and therefore must not have an influence on the structure of that entity.
+//
+// Returns:
+//   - true if the Msg has at least one non-signature part; otherwise false.
+func (m *Msg) hasBodyParts() bool {
+	for _, part := range m.parts {
+		if !part.smime {
+			return true
+		}
+	}
+	return false
 }
 
 // hasSMIME determines if the Msg should be signed with S/MIME.
@@ -2728,7 +2744,7 @@ func (m *Msg) isSMIMEInProgress() bool {
 // References:
 //   - https://datatracker.ietf.org/doc/html/rfc2387
 func (m *Msg) hasRelated() bool {
-	return m.pgptype == 0 && ((len(m.parts) > 0 && len(m.embeds) > 0) || len(m.embeds) > 1)
+	return m.pgptype == 0 && ((m.hasBodyParts() && len(m.embeds) > 0) || len(m.embeds) > 1)
 }
 
 // hasPGPType returns true if the Msg should be treated as a PGP-encoded message.
